@@ -1,7 +1,7 @@
 """Property table and the generic check flow."""
 import json, os, re, shutil, time
 from . import common as C
-from . import judge_pool
+from . import judge_pool, judge_valid
 
 
 class Result:
@@ -56,6 +56,11 @@ PROPS = {
     "C19": dict(mod="IpamVerif.Props.C19", engine="pool", streams=[("pool", "pool", proj_c19)], judge=("pool", {"C19"}),
                 rule="same histories as C14; the four series are read from the metric vectors after every call, the /metrics handler is "
                      "served once per run; a case = one pool history, non-trivial if >= 2 successful state-changing calls, distinct by operation list"),
+    "C18": dict(mod="IpamVerif.Props.C18", engine="valid", streams=[("valid", "valid", proj_all)], judge=("valid", None),
+                rule="grid of ipv4 strings x ipv6 strings (valid of several prefix lengths, other family, malformed variants, empty, IPv4-mapped) x host bits "
+                     "(negative, 0, 3, 4, 5, limits-1/limit/limit+1 of each range, int32 extremes) x selector shapes (nil, no terms, empty term, all six operators "
+                     "with 0/1/2 values, bad keys, bad operators, field selectors good/bad); update pairs changing every subset of the four fields (incl. removals); "
+                     "a case = one spec or one ordered pair; every case is non-trivial; distinct by its encoding"),
 }
 
 
@@ -159,6 +164,10 @@ def correspond(res, spec):
                                     pm[d] if d < len(pm) else "<eof>", rp))
         # endpoint marker lines etc. are part of impl; judge on the implementation alone
         kind, want = spec["judge"]
+        if kind == "valid":
+            for v in judge_valid.judge(ops, impl)[:5]:
+                rp = write_replay(res, stream, ops, impl, model, v["line"], v["msg"])
+                res.violations.append(dict(msg=v["msg"], replay=rp))
         if kind == "pool":
             viol = judge_pool.judge(ops, impl, want)
             for v in viol[:5]:
